@@ -104,3 +104,14 @@ def drive(ctx):
         w2 = i3_to_wall(sec_to_i3(s2, rnd.choice((0, 999999, rnd.randrange(1000000)))))
         zr = (UTCZ, NAIVE, {"n": "", "fo": rnd.randrange(-86399, 86400)}, {"n": rnd.choice(names), "fo": 0})[k % 4]
         ctx.emit("iv_comp", {"entry": "sub"}, [mk_dt(zr, w1, 0), mk_dt(zr, w2, 0)])
+    # one instant written in two differently named zones (both orders): on one wall-clock date, on two dates, on two months
+    for (w, o1, o2) in ctx.mine([([2001, 3, 25, 2, 30, 0, 0], 19800, 3600), ([2001, 3, 25, 12, 0, 0, 0], 19800, 3600),
+                                 ([2020, 3, 1, 1, 0, 0, 5], 7200, -3600), ([2021, 1, 1, 0, 30, 0, 0], 3600, 0),
+                                 ([2016, 7, 10, 23, 59, 59, 999999], -18000, 32400), ([2001, 3, 25, 0, 0, 0, 0], 45900, -43200)]):
+        t0 = _dt.datetime(*w)
+        t1 = t0 - _dt.timedelta(seconds=o1 - o2)
+        w1 = [t1.year, t1.month, t1.day, t1.hour, t1.minute, t1.second, t1.microsecond]
+        for (x, y) in ((mk_dt({"n": "", "fo": o1}, w, 0), mk_dt({"n": "", "fo": o2}, w1, 0)),
+                       (mk_dt({"n": "", "fo": o2}, w1, 0), mk_dt({"n": "", "fo": o1}, w, 0))):
+            ctx.emit("iv_comp", {"entry": "sub"}, [x, y])
+            ctx.emit("iv_comp", {"entry": "Interval"}, [x, y])
